@@ -88,3 +88,8 @@ chk("C13", "exploration",
     "fake server's evaluation rule (ms rounding, Prometheus refusals), point-wise presence model, server completion order as a proxy for arrival order; steps >= 1 s; at most 39 slices",
     "runtime monitoring: reference fold + grid invariants on server-logged requests + order perturbation + Go race detector",
     "DESIGN.md §3 C13")
+chk("C11", "exploration",
+    "(A) the race-instrumented pint binary (go build -race) runs multi-file workloads with --workers 1..64 x GOMAXPROCS 1..16 x jitter seeds (H1 hook: seed-determined 0-2 ms delay per job, arrival order logged); console text, JSON and exit status must be byte-identical to the workers=1 run and every WARNING: DATA RACE block is a violation; (B) in process, every (entry, check) job runs once and the report stream is fed to Summary.Report in random job-order-preserving interleavings, rendered output must equal the canonical order. Workloads: all repository fixtures, generated sort-key collisions (same text at two severities, several instances on the same lines), the everything-fires scenario offline and online (promapi cache/locks/worker pool under contention).",
+    "the race detector only speaks about executed schedules; GOMAXPROCS <= 16; evidence counts distinct arrival orders actually observed",
+    "Go race detector on the real binary + output-equality monitor across schedules + report-stream permutation monitor",
+    "DESIGN.md §3 C11")
